@@ -32,7 +32,10 @@ ScriptClauses(s, o) ==
 LogClauses(s, o) ==
   [ C10_logclean |-> o.exit = 0 /\ S(o.after) = LogsAfter(S(s.present), S(s.current), s.enabled, s.dryrun) ]
 
-Clauses(s, o) == CASE s.kind = "option" -> OptClauses(s, o) [] s.kind = "sgemem" -> SgeClauses(s, o)
+(* "no option is given twice with conflicting values": no directive flag appears twice at all *)
+TwoClauses(s, o) == [ C10_directives |-> o.exit = 0 /\ Len(o.dupflags) = 0 ]
+
+Clauses(s, o) == CASE s.kind = "option" -> OptClauses(s, o) [] s.kind = "twoopts" -> TwoClauses(s, o) [] s.kind = "sgemem" -> SgeClauses(s, o)
                    [] s.kind = "script" -> ScriptClauses(s, o) [] s.kind = "logclean" -> LogClauses(s, o)
 Failed(r) == LET c == Clauses(r.scn, r.obs) IN {n \in DOMAIN c : ~c[n]}
 Init == i \in 1..Len(Batch)
